@@ -145,6 +145,7 @@ Json Program::to_json() const {
     o.set("place", Json::inum(s.place)).set("off8", Json::inum(s.off8)).set("fill", Json::inum(s.fill)).set("owner", Json::inum(s.owner)).set("liballoc", Json::inum(s.liballoc));
     if (s.reserve) o.set("reserve", Json::num(s.reserve)).set("reserve_side", Json::inum(s.reserve_side));
     if (s.neighbor_of >= 0) o.set("neighbor_of", Json::inum(s.neighbor_of)).set("interleaved", Json::inum(s.interleaved));
+    if (s.group >= 0) o.set("group", Json::inum(s.group)).set("gidx", Json::inum(s.gidx)).set("gcols", Json::num(s.gcols));
     if (s.input) o.set("input", Json::inum(s.input)).set("pattern", Json::inum(s.pattern)).set("bits", Json::inum(s.bits)).set("dseed", Json::num(s.dseed)).set("nnz", Json::inum(s.nnz));
     ss.push(o);
   }
@@ -214,6 +215,9 @@ bool Program::from_json(const Json& j, std::string& err) {
     x.neighbor_of = (int)s.i("neighbor_of", -1);
     x.interleaved = (int)s.i("interleaved");
     if (x.neighbor_of >= (int)slots.size()) x.neighbor_of = -1;  // only earlier slots can host a neighbour
+    x.group = (int)s.i("group", -1);
+    x.gidx = (int)s.i("gidx");
+    x.gcols = s.u("gcols");
     x.input = (int)s.i("input");
     x.pattern = (int)s.i("pattern");
     x.bits = (int)s.i("bits");
